@@ -2,7 +2,12 @@
 
 Oracle: spec/RefMailbox.tla, a plain sequential RFC 3501 / 4315 / 6851 model
 of APPEND / STORE(.SILENT) / FETCH / EXPUNGE / UID EXPUNGE / COPY / MOVE /
-CLOSE / SELECT for one session and two mailboxes.  Its state is, per mailbox,
+CLOSE / SELECT for one acting session and two mailboxes, plus COMPLETE commands
+of ANOTHER session of the same user between two commands of the acting session
+(OtherStore: UID STORE, OtherAppend: a delivery into either mailbox,
+OtherExpunge: EXPUNGE of the acting session's selected mailbox).  The mailbox
+is shared and the model is sequential, so every interleaving of complete
+commands must equal the model applied in that order.  Its state is, per mailbox,
 uid -> [flags, date index, content id]; `last` is the abstract result of the
 last command (tagged class, addressed messages, the FETCH data the command
 itself must produce, expunged uids, COPYUID / APPENDUID pairs).  Python never
@@ -32,6 +37,24 @@ date as an instant, content by identity).  One simulated behaviour in five is
 run with dumps at the end only, so that the probe traffic cannot mask anything.
 Backends: dict, maildir ('++' and 'fs' layouts, without and with a
 dovecot-keywords file that permits the keyword).
+
+The other session is a third connection 'o' (opened at its first use).  For
+OtherStore / OtherExpunge it SELECTs the acting session's mailbox read-write
+just before its command - its view is then the mailbox as it is - and leaves it
+with EXAMINE of the same mailbox (nothing is expunged by leaving).  Compared:
+tagged OK and the command's own data on 'o' (FETCH FLAGS / APPENDUID / EXPUNGE
+numbers), then the dumps.  Sequence numbers are relative to what a session has
+been told, and RFC 2180 leaves open what commands on a not-yet-told view do, so
+the model does not enter that window: an action that changes the SET of
+messages of the selected mailbox (OtherExpunge, OtherAppend into it) includes a
+NOOP of the acting session, which must report EXPUNGE of exactly those
+messages / the new EXISTS.  OtherStore has no such step and, in the random
+part, is not followed by the acting session's dump either (the probe looks):
+the acting session's next command of the program is the first thing it does
+after the change and must act on the mailbox as it IS, not as the session last
+saw it (e.g. a STORE whose result equals the session's stale snapshot must
+still happen).  In the exhaustive part an other-session action is never the
+last command of a program; prefixes are replayed without dumps anyway.
 
 Executions are independent (one fresh World each), so they are distributed
 over forked worker processes (VERIF_C10_WORKERS, default 8); every phase has a
@@ -156,6 +179,8 @@ def unjson(st: dict) -> dict:
 
 
 OOR_CMDS = ('store', 'fetch', 'copy', 'move')     # commands with latitude point L1
+OTHER_KINDS = ('ostore', 'oappend', 'oexpunge')   # complete commands of the other session 'o'
+OTHER_TAG = '[o] '                                # how such a command is written in reports
 REC_CMDS = ('store', 'append')                    # ... L2
 
 
@@ -178,7 +203,8 @@ def cfg_text(*, kw: bool, oor_lenient=OOR_CMDS, oor_strict=OOR_CMDS, rec_lenient
     if props:
         lines += ['PROPERTY UidsAscend', 'PROPERTY RefusedInert',
                   'PROPERTY MoveIsCopyStoreExpunge', 'PROPERTY ExpungeExact',
-                  'PROPERTY FetchSeenExact', 'PROPERTY StoreExact']
+                  'PROPERTY FetchSeenExact', 'PROPERTY StoreExact',
+                  'PROPERTY OtherLeavesSession']
     lines.append('CHECK_DEADLOCK FALSE')
     return '\n'.join(lines) + '\n'
 
@@ -295,6 +321,30 @@ def concretise(label: str, prev: dict, off: int, rng) -> tuple[bytes, dict]:
         return b' '.join(parts), {'kind': 'append', 'dest': dest, 'cid': cid}
     if name == 'Close':
         return b'CLOSE', {'kind': 'close'}
+    # complete commands of the OTHER session (connection 'o', see Exec.other): 'box' = the
+    # mailbox it SELECTs before (and EXAMINEs after) its command; 'sync' = the set of
+    # messages of the acting session's mailbox changes, so the action includes its NOOP
+    if name == 'OtherStore':
+        s, op, F = a
+        silent = rng.random() < 0.3
+        item = {'replace': b'', 'add': b'+', 'remove': b'-'}[op] + b'FLAGS' + \
+            (b'.SILENT' if silent else b'')
+        line = b'UID STORE ' + set_str(s, True, off) + b' ' + item + b' ' + flag_list(F)
+        return line, {'kind': 'ostore', 'box': prev['sel'], 'silent': silent, 'sync': False}
+    if name == 'OtherAppend':
+        dest, F, d = a
+        cid = prev['nextcid']
+        msg = content(cid)
+        parts = [b'APPEND', dest.encode()]
+        if F or rng.random() < 0.5:
+            parts.append(flag_list(F))
+        if d:
+            parts.append(b'"' + DATES[d] + b'"')
+        parts.append(b'{%d+}\r\n' % len(msg) + msg)
+        return b' '.join(parts), {'kind': 'oappend', 'dest': dest, 'cid': cid, 'box': None,
+                                  'sync': dest == prev['sel']}
+    if name == 'OtherExpunge':
+        return b'EXPUNGE', {'kind': 'oexpunge', 'box': prev['sel'], 'sync': True}
     if name == 'Select':
         return b'SELECT ' + a[0].encode(), {'kind': 'select', 'dest': a[0]}
     raise ValueError(label)
@@ -430,13 +480,18 @@ class Exec:
         self.last_obs = None
         self.last_obs_discs: list = []
         self.metas: list = []
+        self.side: dict = {}             # what the other session was answered at this step
+        self.n_other = 0                 # other-session steps executed
+        self.unsynced_store = False      # an OtherStore the session has not been told about
+        self.n_after_ostore = 0          # own commands given directly after such an OtherStore
 
     # -- plumbing ------------------------------------------------------------
 
     def cmd(self, conn: str, line: bytes) -> bytes:
         out = self.w.cmd(conn, line)
-        if conn == 'a':
-            self.log.append((line[:300].decode('latin-1'), out[:2000].decode('latin-1')))
+        if conn in ('a', 'o'):
+            self.log.append(((OTHER_TAG if conn == 'o' else '') + line[:300].decode('latin-1'),
+                             out[:2000].decode('latin-1')))
         return out
 
     def close(self) -> None:
@@ -513,10 +568,12 @@ class Exec:
 
     # -- observation ---------------------------------------------------------
 
-    def dump(self, sel: str) -> dict:
-        """{'self': (box, msgs, err), box: (msgs, err, exists)}"""
+    def dump(self, sel: str, own: bool = True) -> dict:
+        """{'self': (box, msgs, err), box: (msgs, err, exists)}; own=False: the probe
+        only (the session under test is not asked anything)"""
         out = {}
-        if sel != 'none':
+        if sel != 'none' and own:
+            self.unsynced_store = False
             raw = self.cmd('a', DUMP_LIGHT)
             msgs, err, _ = parse_dump(raw, self.off, light=True)
             out['self'] = (sel, msgs, err)
@@ -531,9 +588,52 @@ class Exec:
 
     def step(self, label: str, prev: dict):
         line, meta = concretise(label, prev, self.off, self.rng)
+        if meta['kind'] in OTHER_KINDS:
+            return OTHER_TAG.encode() + line, meta, self.other(line, meta)
+        return line, meta, self.own(line)
+
+    def own(self, line: bytes) -> 'Obs':
+        """a command of the session under test"""
+        if self.unsynced_store:
+            self.n_after_ostore += 1
+            self.unsynced_store = False
         raw = self.cmd('a', line)
         self.last_raw = raw
-        return line, meta, Obs(raw)
+        self.side = {}
+        return Obs(raw)
+
+    def other(self, line: bytes, meta: dict) -> 'Obs':
+        """a COMPLETE command of the other session: connection 'o', same user, opened
+        at its first use.  For a command on a selected mailbox it SELECTs the mailbox just
+        before (its view is then the mailbox as it is) and leaves it with EXAMINE of the
+        same mailbox (no CLOSE, nothing is expunged).  What 'o' was answered is kept in
+        self.side.  If the action synchronises the acting session (meta['sync']) that
+        session's NOOP follows and ITS response is returned, otherwise the response of
+        'o' to its command."""
+        w = self.w
+        if 'o' not in w.conns:
+            c = w.connect('o')
+            c.take()
+            w.login('o')
+        self.n_other += 1
+        side = {}
+        box = meta.get('box')
+        if box:
+            side['select'] = Obs(self.cmd('o', b'SELECT ' + box.encode()))
+        raw = self.cmd('o', line)
+        side['main'] = Obs(raw)
+        if box:
+            side['examine'] = Obs(self.cmd('o', b'EXAMINE ' + box.encode()))
+        self.side = side
+        if meta['kind'] == 'ostore':
+            self.unsynced_store = True
+        if meta.get('sync'):
+            self.unsynced_store = False
+            raw = self.cmd('a', b'NOOP')
+            self.last_raw = raw
+            return Obs(raw)
+        self.last_raw = raw
+        return side['main']
 
     # -- comparison ----------------------------------------------------------
 
@@ -609,6 +709,32 @@ class Exec:
         return out
 
     def compare_obs(self, prev: dict, st: dict, meta: dict, obs: Obs) -> list:
+        if meta['kind'] not in OTHER_KINDS:
+            return self._compare_obs(prev, st, meta, obs)
+        # a step of the other session: what 'o' was answered (its view is the mailbox as
+        # it was: it SELECTed just before), then the acting session's NOOP if there is one
+        out = []
+        side = self.side
+        for key in ('select', 'examine'):
+            o = side.get(key)
+            if o is not None and (o.malformed or o.cond != 'OK'):
+                out.append(('other', f'other session: {key.upper()} {meta["box"]} answered '
+                            f'{o.malformed or o.cond}'))
+        if self.w.conns['o'].done or any(o.bye for o in side.values()):
+            out.append(('bye', 'other session: the server closed the connection'))
+        main = side['main']
+        if meta['kind'] == 'oappend' and not main.malformed:
+            # its untagged data is about whatever 'o' has EXAMINEd: not compared
+            main = Obs(b'')
+            main.cond, main.codes, main.bye = side['main'].cond, side['main'].codes, False
+        sub = dict(meta, kind='o:' + meta['kind'][1:])
+        out += [(d[0], 'other session: ' + d[1]) + tuple(d[2:])
+                for d in self._compare_obs(prev, st, sub, main)]
+        if meta.get('sync') and not any(d[0] == 'cond' for d in out):
+            out += self._compare_obs(prev, st, dict(meta, kind='sync'), obs)
+        return out
+
+    def _compare_obs(self, prev: dict, st: dict, meta: dict, obs: Obs) -> list:
         out = []
         last = st['last']
         if obs.malformed:
@@ -689,6 +815,14 @@ class Exec:
             for u, f in last['fetch'].items():
                 if not any(b'FLAGS' in d for d in lines.get(u, [])):
                     out.append(('fetchmissing', f'STORE without .SILENT: no FETCH FLAGS for uid {u + off}'))
+        if kind == 'o:store' and not meta['silent']:
+            for u in last['addr']:
+                if not any(b'FLAGS' in d for d in lines.get(u, [])):
+                    out.append(('fetchmissing', f'STORE without .SILENT: no FETCH FLAGS for uid {u + off}'))
+        if kind == 'sync' and last['exists'] and exists != last['exists']:
+            # RFC 3501 5.2: mailbox size updates MUST be sent when observed during a command
+            out.append(('view', f'NOOP after the other session\'s delivery: {exists} EXISTS, '
+                        f'model {last["exists"]}'))
         if kind == 'fetch':
             addr = set(last['addr'])
             if meta.get('own_key'):
@@ -731,7 +865,7 @@ class Exec:
                 if got != sorted(wantp):
                     out.append(('copyuid', f'COPYUID {raw.decode()} = pairs {got}, model {wantp} '
                                 f'(+{off})', {'got': got, 'want': wantp}))
-        if kind == 'append':
+        if kind in ('append', 'o:append'):
             raw = obs.codes.get('APPENDUID')
             wantu = last['pairs'][0][1]
             if raw is None:
@@ -873,7 +1007,7 @@ def make_report(ex: Exec, labels: list, cmds: list, prev: dict, cands: list,
     replay = {'check': 'C10', 'backend': ex.bname, 'phase': phase, 'init': ex.init,
               'labels': labels, 'commands': cmds, 'metas': ex.metas, 'prev': prev,
               'cands': cands, 'discrepancies': [list(d[:2]) for d in discs],
-              'transcript': ex.log[-6:]}
+              'transcript': ex.log[-10:]}
     return {'what': what, 'replay': replay, 'sig': sig, 'latitude': latitude}
 
 
@@ -956,6 +1090,7 @@ def _graph_task(task) -> dict:
         res['error'] = f'{type(exc).__name__}: {exc}\n' + traceback.format_exc()[-1500:]
         return res
     finally:
+        res['other'], res['after_ostore'] = ex.n_other, ex.n_after_ostore
         ex.close()
 
 
@@ -971,6 +1106,8 @@ def _sim_task(task) -> dict:
         again = _run_behaviour(bname, steps, seedkey, False)
         again['steps'] += res['steps']
         again['full'] += res['full']
+        again['other'] += res['other']
+        again['after_ostore'] += res['after_ostore']
         if again['reports']:
             return again
         res['only_without_intermediate_dumps'] = True
@@ -1000,7 +1137,11 @@ def _run_behaviour(bname: str, steps: list, seedkey: str, end_only: bool) -> dic
             ex.last_obs, ex.last_obs_discs = obs, list(discs)
             if not end_only or k == len(steps) - 1 or discs:
                 ex.pre_taint(prev, st)
-                discs = discs + ex.compare_dumps(st, ex.dump(st['sel']))
+                # after the other session's STORE the acting session is not asked for its
+                # dump (that would bring it up to date): its next command of the behaviour
+                # is the first thing it does after the change.  The probe looks.
+                own = meta['kind'] != 'ostore' or k == len(steps) - 1 or bool(discs)
+                discs = discs + ex.compare_dumps(st, ex.dump(st['sel'], own=own))
                 res['full'] += 1
             if discs:
                 sig = excusable(ex, prev, st, discs)
@@ -1021,6 +1162,7 @@ def _run_behaviour(bname: str, steps: list, seedkey: str, end_only: bool) -> dic
         res['error'] = f'{type(exc).__name__}: {exc}\n' + traceback.format_exc()[-1500:]
         return res
     finally:
+        res['other'], res['after_ostore'] = ex.n_other, ex.n_after_ostore
         ex.close()
 
 
@@ -1055,7 +1197,8 @@ class Driver:
     def st(self, bname: str) -> dict:
         return self.stats.setdefault(bname, {
             'executions': 0, 'steps': 0, 'full_compares': 0, 'known': 0,
-            'latitude_stops': 0, 'pairs_covered': 0})
+            'latitude_stops': 0, 'pairs_covered': 0, 'other_session_steps': 0,
+            'own_commands_directly_after_other_store': 0})
 
     def _map(self, fn, tasks: list, budget_s: float, t0: float):
         """run tasks in forked workers, in order, in batches; stop at the budget.
@@ -1084,6 +1227,8 @@ class Driver:
         stats['executions'] += 1
         stats['steps'] += r['steps']
         stats['full_compares'] += r['full']
+        stats['other_session_steps'] += r.get('other', 0)
+        stats['own_commands_directly_after_other_store'] += r.get('after_ostore', 0)
         if r.get('error'):
             self.run.machinery(f'[{bname}] worker: {r["error"]}')
             return False
@@ -1204,17 +1349,23 @@ def _graph(drv: Driver, profile: str, kw: bool, maxcmds: int):
     return graph, nodes, res, name
 
 
-def _simulate(drv: Driver, kw: bool, policy: frozenset, num: int, depth_cmds: int, seed: int):
-    """-> (behaviours, TLCResult, name).  The latitude constants are set to what the
-    backend exhibited in the exhaustive part (a sub-model of the full model)."""
+def _sim_consts(policy) -> tuple:
+    """the latitude constants of the sub-model a backend exhibited in the exhaustive
+    part: (OorLenient, OorStrict, RecLenient, RecStrict, AppendKw)"""
     def cmds(point, all_cmds, res):
         # a (point, command) pair the exhaustive part never resolved keeps both resolutions
-        return [c for c in all_cmds
-                if (point, c, res) in policy
-                or not any(p_ == point and c_ == c for p_, c_, _ in policy)]
-    ol, os_ = cmds('oor', OOR_CMDS, 'lenient'), cmds('oor', OOR_CMDS, 'strict')
-    rl, rs = cmds('rec', REC_CMDS, 'lenient'), cmds('rec', REC_CMDS, 'strict')
-    akw = sorted({r for p_, _, r in policy if p_ == 'kw'}) or ['keep', 'drop']
+        return tuple(c for c in all_cmds
+                     if (point, c, res) in policy
+                     or not any(p_ == point and c_ == c for p_, c_, _ in policy))
+    return (cmds('oor', OOR_CMDS, 'lenient'), cmds('oor', OOR_CMDS, 'strict'),
+            cmds('rec', REC_CMDS, 'lenient'), cmds('rec', REC_CMDS, 'strict'),
+            tuple(sorted({r for p_, _, r in policy if p_ == 'kw'} or {'keep', 'drop'})))
+
+
+def _simulate(drv: Driver, kw: bool, consts: tuple, num: int, depth_cmds: int, seed: int):
+    """-> (behaviours, TLCResult, name).  The latitude constants are set to what the
+    backend exhibited in the exhaustive part (a sub-model of the full model)."""
+    ol, os_, rl, rs, akw = (list(x) for x in consts)
     tag = hashlib.sha1(repr((ol, os_, rl, rs, akw)).encode()).hexdigest()[:8]
     cfg = drv.write_cfg(f's_{int(kw)}_{tag}_{num}.cfg', kw=kw, oor_lenient=ol, oor_strict=os_,
                         rec_lenient=rl, rec_strict=rs, appendkw=akw, inits=['std', 'empty'],
@@ -1233,13 +1384,18 @@ def main(tier: str) -> int:
     run.cov['rule'] = (
         'executions = programs taken from TLC (state graph of all programs of length <= 3 '
         'over the reduced menu, every (state, command) pair once; -simulate behaviours of '
-        '<= 12 commands over the full menu) replayed on a fresh real server with the tagged '
+        '<= 12 commands over the full menu; commands of the acting session and complete '
+        'commands of a second session on the same mailboxes) replayed on a fresh real server with the tagged '
         'result, the command\'s own untagged data and full dumps of both mailboxes compared '
         'with the TLC-computed state after every step; non-trivial = a program in which at '
         'least one command addressed a message or created one; distinct = distinct '
         '(backend, program) pairs')
     run.assumptions += [
-        'one session plus a read-only probe connection; no concurrent writers (C01/C02/C14)',
+        'one acting session, COMPLETE commands of a second session of the same user between '
+        'its commands, and a read-only probe connection; no overlapping commands (C01/C02/C14)',
+        'the window in which the acting session has not been told about messages another '
+        'session added to / expunged from its selected mailbox is not entered (RFC 2180 '
+        'latitude): such an action includes a NOOP of the acting session, which must report it',
         'maildir scratch stores live on tmpfs (/dev/shm) when available: durability is C15',
         'maildir content is compared modulo CRLF/LF (C03 owns the rewrite on APPEND)',
         '\\Recent is ignored in every comparison (C17)',
@@ -1253,6 +1409,16 @@ def main(tier: str) -> int:
         # all with every property of the model; side by side, joined before any fork
         from concurrent.futures import ThreadPoolExecutor
         prof = 'q' if quick else 't'
+        if quick:
+            splan = [('dict', False, 300, 12), ('maildir++', False, 100, 6),
+                     ('maildirfs', False, 50, 4), ('maildir++kw', True, 100, 6)]
+        else:
+            splan = [('dict', False, 6000, 120), ('maildir++', False, 2500, 100),
+                     ('maildirfs', False, 800, 50), ('maildir++kw', True, 2500, 100),
+                     ('maildirfskw', True, 500, 30)]
+        only = [b for b in os.environ.get('VERIF_C10_BACKENDS', '').split(',') if b]
+        if only:        # debugging aid: restrict the backends
+            splan = [p for p in splan if p[0] in only]
         with ThreadPoolExecutor(max_workers=3) as tp:
             f0 = tp.submit(_graph, drv, prof, False, 3)
             f1 = tp.submit(_graph, drv, prof, True, 3)
@@ -1275,26 +1441,16 @@ def main(tier: str) -> int:
             plan = [('dict', g0, n0, None, 240), ('maildir++', g0, n0, None, 300),
                     ('maildirfs', g0, n0, 4000, 80), ('maildir++kw', g1, n1, 12000, 200),
                     ('maildirfskw', g1, n1, 2000, 50)]
-        only = [b for b in os.environ.get('VERIF_C10_BACKENDS', '').split(',') if b]
-        if only:        # debugging aid: restrict the backends
+        if only:
             plan = [p for p in plan if p[0] in only]
         for bname, g, nodes, limit, budget in plan:
             drv.graph_phase(bname, g, nodes, limit, budget)
         run.notes['graph_wall_s'] = round(time.time() - t_all, 1)
         # 3: random part, one TLC simulation per (KwPermitted, exhibited policy)
-        if quick:
-            splan = [('dict', False, 300, 12), ('maildir++', False, 100, 6),
-                     ('maildirfs', False, 50, 4), ('maildir++kw', True, 100, 6)]
-        else:
-            splan = [('dict', False, 6000, 120), ('maildir++', False, 2500, 100),
-                     ('maildirfs', False, 800, 50), ('maildir++kw', True, 2500, 100),
-                     ('maildirfskw', True, 500, 30)]
-        if only:
-            splan = [p for p in splan if p[0] in only]
-        # one TLC simulation per (KwPermitted, exhibited policy), run side by side
+        # one TLC simulation per (KwPermitted, exhibited sub-model), run side by side
         need: dict = {}
         for bname, kw, num, budget in splan:
-            key = (kw, frozenset(drv.policy.get(bname, set())))
+            key = (kw, _sim_consts(drv.policy.get(bname, set())))
             need[key] = max(need.get(key, 0), num)
         with ThreadPoolExecutor(max_workers=4) as tp:
             futs = {key: tp.submit(_simulate, drv, key[0], key[1], num, 12, run.seed + 1)
@@ -1308,7 +1464,7 @@ def main(tier: str) -> int:
                                        f'{res.violated or res.error or res.output[-500:]}')
                 sims[key] = behs
         for bname, kw, num, budget in splan:
-            key = (kw, frozenset(drv.policy.get(bname, set())))
+            key = (kw, _sim_consts(drv.policy.get(bname, set())))
             drv.sim_phase(bname, sims[key][:num], budget)
         run.notes['per_backend'] = drv.stats
         run.notes['workers'] = drv.workers
@@ -1344,13 +1500,16 @@ def replay(path: str) -> int:
             print('REPRODUCED' if d0 else 'NOT REPRODUCED')
             return 1 if d0 else 0
         obs = None
-        for label, cmd in zip(rep['labels'], rep['commands']):
-            raw = ex.cmd('a', cmd.encode('latin-1'))
-            ex.last_raw = raw
-            obs = Obs(raw)
-            print(f'C: {cmd[:110]!r}   ({label})')
-            for ln in raw.decode('latin-1').splitlines()[:14]:
-                print('   S: ' + ln[:150])
+        for label, cmd, meta in zip(rep['labels'], rep['commands'], rep['metas']):
+            n0 = len(ex.log)
+            if cmd.startswith(OTHER_TAG):
+                obs = ex.other(cmd[len(OTHER_TAG):].encode('latin-1'), meta)
+            else:
+                obs = ex.own(cmd.encode('latin-1'))
+            for c, out in ex.log[n0:]:
+                print(f'C: {c[:110]!r}' + (f'   ({label})' if c[:100] == cmd[:100] else ''))
+                for ln in out.splitlines()[:14]:
+                    print('   S: ' + ln[:150])
         prev = unjson(rep['prev'])
         cands = [unjson(c) for c in rep['cands']]
         meta = rep['metas'][-1]
